@@ -346,6 +346,27 @@ theorem c08_probe_failure_reopens_and_restarts (cfg : Cfg) (H : Hashes) (s : Sta
   rw [hbr.2.1]
   simp only; omega
 
+/-- The two probe theorems for a breaker that is still OPEN when the probe arrives at or after the timeout (the
+    usual situation — the half-open state is entered by this very request): a non-cached un-blocked reply closes
+    and clears, a failure outcome leaves it open with the timeout restarted and one more trip counted. -/
+theorem c08_probe_after_timeout (cfg : Cfg) (H : Hashes) (s : State) (p : Prompt) (zr yr : Resp) (t : Nat)
+    (hon : cfg.breakerOn = true) (ho : s.br.cstate = .opened) (hl : s.br.lastFailure = some t)
+    (ht : cfg.timeout ≤ (s.now : Int) - (t : Int)) :
+    (∀ r, (run cfg H s p zr yr).2.result = some r → r.cached = false → r.blocked = false →
+      (run cfg H s p zr yr).1.br.cstate = .closed ∧ (run cfg H s p zr yr).1.br.failures = 0) ∧
+    ((run cfg H s p zr yr).2.kind.isFailure = true →
+      (run cfg H s p zr yr).1.br.cstate = .opened ∧ (run cfg H s p zr yr).1.br.lastFailure = some s.now ∧
+      (run cfg H s p zr yr).1.br.trips = s.br.trips + 1) := by
+  have heq := (c08_probe_allowed_after_timeout cfg H s p zr yr t hon ho hl ht).2.1
+  rw [heq]
+  constructor
+  · intro r hr hc hb
+    have := c08_probe_success_closes_and_clears cfg H { s with br := { s.br with cstate := .halfOpen } } p zr yr r rfl hr hc hb
+    exact ⟨this.1, this.2.1⟩
+  · intro hk
+    have := c08_probe_failure_reopens_and_restarts cfg H { s with br := { s.br with cstate := .halfOpen } } p zr yr rfl hk
+    exact ⟨this.1, this.2.1, this.2.2.1⟩
+
 /-! ### intentional blocks, cache hits, disabled breaker, reset -/
 
 /-- Intentional blocks are never counted as failures: a request on which either agent votes BLOCK (and no
